@@ -33,7 +33,11 @@ Inductive event :=
 | EMeta (topics : list (N * list N))                    (* contents of nsqd.dat *)
 | ERestart.                                             (* graceful Exit, new daemon on the same data path *)
 
-Record case := mkCase { cfg : config; events : list event }.
+(* [hidden]: consumers whose counters are not compared (used by the forced-interleaving
+   scenarios to look BEYOND a known finding that corrupts exactly those counters);
+   [ignore]: ledger checks not evaluated for this case (same purpose) *)
+Record case := mkCaseX { cfg : config; events : list event; hidden : list N; ignore : list N }.
+Definition mkCase (cf : config) (evs : list event) : case := mkCaseX cf evs [] [].
 
 (* ------------------------------------------------------------------ sorting helpers *)
 Fixpoint insert_n (x : N) (l : list N) : list N :=
@@ -82,10 +86,22 @@ Definition ks_eqb (mk : client) (o : ksnap) : bool :=
   (k_id mk =? ks_id o) && (k_rdy mk =? ks_rdy o)%Z && (k_ifl mk =? ks_ifl o)%Z
   && (k_fincount mk =? ks_fin o) && (k_reqcount mk =? ks_req o) && (k_msgcount mk =? ks_msgs o).
 
-Definition snap_agrees (s : state) (ts : list tsnap) (ks : list ksnap) : bool :=
+(* consumers that /stats lists: connected and member of an existing channel *)
+Definition visible (s : state) (k : client) : bool :=
+  k_alive k && match k_sub k with
+               | Some (t, c) => match get_chan s t c with
+                                | Some ch => existsb (N.eqb (k_id k)) (c_clients ch)
+                                | None => false
+                                end
+               | None => false
+               end.
+
+Definition snap_agrees_h (hid : list N) (s : state) (ts : list tsnap) (ks : list ksnap) : bool :=
   list_eqb2 ts_eqb (sort_by t_id (s_topics s)) (sort_by ts_id ts)
-  && list_eqb2 ks_eqb (sort_by k_id (filter k_alive (s_clients s))) (sort_by ks_id ks)
-  && quiescent s.
+  && list_eqb2 ks_eqb (sort_by k_id (filter (fun k => visible s k && negb (existsb (N.eqb (k_id k)) hid)) (s_clients s)))
+                      (sort_by ks_id (filter (fun k => negb (existsb (N.eqb (ks_id k)) hid)) ks))
+  && (match hid with [] => quiescent s | _ => true end).
+Definition snap_agrees := snap_agrees_h [].
 
 (* ids the model's scan would re-queue *)
 Definition model_expired (s : state) (t c : N) (inflight : bool) (now : Z) : list N :=
@@ -104,7 +120,7 @@ Definition meta_agrees (s : state) (m : list (N * list N)) : bool :=
 (* one event of the replay: None = the model and the recording disagree here.
    [pend] = the expired set the model predicts for the scan just issued; the EExpired
    event that follows carries the observation *)
-Definition replay_step (cf : config) (s : state) (pend : option (N * N * bool * list N)) (e : event)
+Definition replay_step_h (hid : list N) (cf : config) (s : state) (pend : option (N * N * bool * list N)) (e : event)
   : option (state * option (N * N * bool * list N)) :=
   match e with
   | EOp o r =>
@@ -128,31 +144,34 @@ Definition replay_step (cf : config) (s : state) (pend : option (N * N * bool * 
       | None => None
       end
   | EClosed _ => Some (s, pend)
-  | ESnap ts ks => if snap_agrees s ts ks then Some (s, pend) else None
+  | ESnap ts ks => if snap_agrees_h hid s ts ks then Some (s, pend) else None
   | EMeta m => if meta_agrees s m then Some (s, pend) else None
   | ERestart => Some (restart s, pend)
   end.
+Definition replay_step := replay_step_h [].
 
-Fixpoint replay (cf : config) (s : state) (pend : option (N * N * bool * list N)) (evs : list event) : bool :=
+Fixpoint replay_h (hid : list N) (cf : config) (s : state) (pend : option (N * N * bool * list N)) (evs : list event) : bool :=
   match evs with
   | [] => match pend with None => true | Some _ => false end
   | e :: rest =>
-      match replay_step cf s pend e with
-      | Some (s', pend') => replay cf s' pend' rest
+      match replay_step_h hid cf s pend e with
+      | Some (s', pend') => replay_h hid cf s' pend' rest
       | None => false
       end
   end.
+Definition replay := replay_h [].
 
 (* diagnostics: 0 = the whole trace replays; otherwise 1 + index of the first event that does not *)
-Fixpoint replay_diag (cf : config) (s : state) (pend : option (N * N * bool * list N)) (evs : list event) (i : N) : N :=
+Fixpoint replay_diag_h (hid : list N) (cf : config) (s : state) (pend : option (N * N * bool * list N)) (evs : list event) (i : N) : N :=
   match evs with
   | [] => match pend with None => 0 | Some _ => i + 1 end
   | e :: rest =>
-      match replay_step cf s pend e with
-      | Some (s', pend') => replay_diag cf s' pend' rest (i + 1)
+      match replay_step_h hid cf s pend e with
+      | Some (s', pend') => replay_diag_h hid cf s' pend' rest (i + 1)
       | None => i + 1
       end
   end.
+Definition replay_diag := replay_diag_h [].
 
 (* the model state just before event i (for debugging a disagreement) *)
 Fixpoint state_before (cf : config) (s : state) (pend : option (N * N * bool * list N)) (evs : list event) (i : nat) : state :=
@@ -166,7 +185,7 @@ Fixpoint state_before (cf : config) (s : state) (pend : option (N * N * bool * l
       end
   end.
 
-Definition agree (c : case) : bool := replay (cfg c) init None (events c).
+Definition agree (c : case) : bool := replay_h (hidden c) (cfg c) init None (events c).
 
 (* ------------------------------------------------------------------ monitor: trace-only ledger *)
 Record mstat := mkMS { ms_holder : option N; ms_att : N; ms_fin : bool; ms_dead : bool }.
@@ -178,10 +197,12 @@ Record chled := mkCL {
   l_owed : list N;                (* ids acknowledged to a publisher while this channel existed (and not excused) *)
   l_fincount : N; l_emptied : N;
   l_clients : list N;
+  l_fin_since : N;                (* FINs accepted since the last snapshot *)
+  l_recv_since : N;               (* messages published to the (un-paused) topic since the last snapshot *)
   l_base : N                      (* messages carried over from before a restart (not "received" in this lifetime) *)
 }.
 #[export] Instance eta_cl : Settable _ :=
-  settable! mkCL <l_t; l_c; l_eph; l_paused; l_msgs; l_owed; l_fincount; l_emptied; l_clients; l_base>.
+  settable! mkCL <l_t; l_c; l_eph; l_paused; l_msgs; l_owed; l_fincount; l_emptied; l_clients; l_fin_since; l_recv_since; l_base>.
 
 Record tled := mkTL { tl_id : N; tl_eph : bool; tl_paused : bool; tl_pubcount : N; tl_pubbytes : N;
                       tl_pending : list N (* published while the topic was paused, not yet handed to channels *) }.
@@ -197,12 +218,13 @@ Record ledger := mkL {
   g_last : option (list tsnap * list ksnap);
   g_prev_failed : bool;            (* the previous op was a refused FIN/REQ/TOUCH: next snapshot must equal g_last *)
   g_flags : list N;                (* violated property numbers *)
+  g_hidden : list N;               (* consumers whose counters are not judged in this case *)
   g_prerestart : option (list tsnap);   (* the last snapshot before a restart *)
   g_gone : list (N * N);           (* ephemeral channels whose last consumer left: must be absent from the next snapshot *)
   g_idx : N;                       (* index of the event being processed (diagnostics) *)
   g_where : list (N * N)           (* (event index, property) of each violation (diagnostics) *)
 }.
-#[export] Instance eta_l : Settable _ := settable! mkL <g_ch; g_tp; g_kl; g_last; g_prev_failed; g_flags; g_prerestart; g_gone; g_idx; g_where>.
+#[export] Instance eta_l : Settable _ := settable! mkL <g_ch; g_tp; g_kl; g_last; g_prev_failed; g_flags; g_hidden; g_prerestart; g_gone; g_idx; g_where>.
 
 Definition flag (p : N) (ok : bool) (g : ledger) : ledger :=
   if ok then g else g <| g_flags ::= cons p |> <| g_where ::= cons (g_idx g, p) |>.
@@ -230,7 +252,7 @@ Definition ens_tl (g : ledger) (t : N) (eph : bool) : ledger :=
   match find_tl g t with Some _ => g | None => g <| g_tp ::= cons (mkTL t eph false 0 0 []) |> end.
 Definition ens_cl (g : ledger) (t c : N) (teph ceph : bool) : ledger :=
   let g := ens_tl g t teph in
-  match find_cl g t c with Some _ => g | None => g <| g_ch ::= cons (mkCL t c ceph false [] [] 0 0 [] 0) |> end.
+  match find_cl g t c with Some _ => g | None => g <| g_ch ::= cons (mkCL t c ceph false [] [] 0 0 [] 0 0 0) |> end.
 
 Definition snap_chan (ts : list tsnap) (t c : N) : option csnap :=
   match find (fun x => ts_id x =? t) ts with
@@ -253,7 +275,11 @@ Definition mon_op (g : ledger) (o : op) (r : resp) : ledger :=
       let g := upd_tl g t (fun x => (x <| tl_pubcount ::= N.add (N.of_nat (length ids)) |> <| tl_pubbytes ::= N.add bytes |>)
                                      <| tl_pending ::= fun l => if tl_paused x then ids ++ l else l |>) in
       (* owed to every channel that exists on the topic now *)
-      g <| g_ch ::= map (fun cl => if l_t cl =? t then cl <| l_owed ::= app ids |> else cl) |>
+      let paused := match find_tl g t with Some tl => tl_paused tl | None => false end in
+      g <| g_ch ::= map (fun cl => if l_t cl =? t
+                                   then cl <| l_owed ::= app ids |>
+                                           <| l_recv_since ::= N.add (if paused then 0 else N.of_nat (length ids)) |>
+                                   else cl) |>
   | OConnect k _, ROk => g <| g_kl ::= cons (mkKL k true None 0%Z false 0 0 0) |>
   | OSub k t c teph ceph _, ROk =>
       let g := ens_cl g t c teph ceph in
@@ -301,7 +327,7 @@ Definition mon_op (g : ledger) (o : op) (r : resp) : ledger :=
                   | ROk =>
                       let g := flag 2 holds g in
                       let g := upd_cl g t c (fun cl => cl <| l_msgs := ms_set (l_msgs cl) id (st <| ms_holder := None |> <| ms_fin := true |>) |>
-                                                           <| l_fincount ::= N.succ |>
+                                                           <| l_fincount ::= N.succ |> <| l_fin_since ::= N.succ |>
                                                            <| l_owed ::= filter (fun x => negb (x =? id)) |>) in
                       upd_kl g k (fun x => x <| kl_fin ::= N.succ |>)
                   | RFailed => (flag 2 (negb holds) g) <| g_prev_failed := true |>
@@ -404,7 +430,7 @@ Definition mon_op (g : ledger) (o : op) (r : resp) : ledger :=
                                  end
                | None => 0
                end in
-      upd_cl g t c (fun cl => (discard_all cl) <| l_emptied ::= N.add n |>)
+      upd_cl g t c (fun cl => (discard_all cl) <| l_emptied ::= N.add (n + l_recv_since cl - l_fin_since cl) |>)
   | ODeleteChan t c, ROk =>
       let g := g <| g_ch ::= filter (fun x => negb ((l_t x =? t) && (l_c x =? c))) |> in
       match find_tl g t with
@@ -447,6 +473,7 @@ Definition mon_snap (g : ledger) (ts : list tsnap) (ks : list ksnap) : ledger :=
     | None => true
     end && forallb (chan_ok tsn) (ts_chans tsn) in
   let client_ok (k : ksnap) : bool :=
+    if mem_n (ks_id k) (g_hidden g) then true else
     match find_kl g (ks_id k) with
     | Some kl =>
         (ks_rdy k =? kl_rdy kl)%Z && (ks_fin k =? kl_fin kl) && (ks_req k =? kl_req kl) && (ks_msgs k =? kl_msgs kl)
@@ -463,6 +490,7 @@ Definition mon_snap (g : ledger) (ts : list tsnap) (ks : list ksnap) : ledger :=
   let g := flag 13 (forallb topic_ok ts && forallb client_ok ks) g in
   (* C03 resume: nobody who is ready is left waiting behind a non-empty queue *)
   let starving (k : ksnap) : bool :=
+    if mem_n (ks_id k) (g_hidden g) then false else
     match find_kl g (ks_id k) with
     | Some kl =>
         match kl_sub kl with
@@ -510,6 +538,7 @@ Definition mon_snap (g : ledger) (ts : list tsnap) (ks : list ksnap) : ledger :=
      (checked where the op happened: see mon_after) *)
   (* C08: ephemeral channels that lost their last consumer are gone *)
   let g := flag 8 (forallb (fun tc => match snap_chan ts (fst tc) (snd tc) with None => true | Some _ => false end) (g_gone g)) g in
+  let g := g <| g_ch ::= map (fun cl => cl <| l_fin_since := 0 |> <| l_recv_since := 0 |>) |> in
   ((g <| g_last := Some (ts, ks) |>) <| g_prev_failed := false |>) <| g_gone := [] |>.
 
 (* checks that need the snapshot FOLLOWING an op *)
@@ -520,7 +549,8 @@ Definition mon_after (prev : option event) (g : ledger) (ts : list tsnap) (ks : 
       | Some cs, Some cl =>
           flag 8 ((cs_depth cs =? 0) && (cs_ifl cs =? 0) && (cs_dfr cs =? 0)
                   && (cs_nclients cs =? N.of_nat (length (l_clients cl)))
-                  && forallb (fun k => if mem_n (ks_id k) (l_clients cl) then (ks_ifl k =? 0)%Z else true) ks) g
+                  && forallb (fun k => if mem_n (ks_id k) (l_clients cl) && negb (mem_n (ks_id k) (g_hidden g))
+                                       then (ks_ifl k =? 0)%Z else true) ks) g
       | None, _ => flag 8 false g
       | _, None => g
       end
@@ -528,7 +558,10 @@ Definition mon_after (prev : option event) (g : ledger) (ts : list tsnap) (ks : 
       flag 8 (match snap_chan ts t c with None => true | Some _ => false end) g
   | Some (EOp (ODeleteTopic t) ROk) =>
       flag 8 (match find (fun x => ts_id x =? t) ts with None => true | Some _ => false end) g
-  | Some (EOp (OCreateChan t c _ _ _) ROk) => g
+  | Some (EOp (OSub k t c _ _ _) ROk) =>
+      (* a SUB answered OK means the consumer is attached to the live channel *)
+      flag 8 (match snap_chan ts t c with Some _ => true | None => false end
+              && existsb (fun x => ks_id x =? k) ks) g
   | _ => g
   end.
 
@@ -615,7 +648,7 @@ Definition mon_final (g : ledger) : ledger :=
                              match l_owed cl with [] => true | _ => false end) (g_ch g)) g.
 
 Definition flags_of (c : case) : list N :=
-  g_flags (mon_final (mon_run (mkL [] [] [] None false [] None [] 0 []) None false (events c))).
+  g_flags (mon_final (mon_run (mkL [] [] [] None false [] (hidden c) None [] 0 []) None false (events c))).
 
 (* which ledger checks belong to which property: C05 also demands redelivery with
    continuing attempts and no reappearance of finished messages (checks 1 and 2 across
@@ -623,10 +656,10 @@ Definition flags_of (c : case) : list N :=
 Definition concerns (p : N) : list N :=
   if p =? 5 then [5; 1; 2] else if p =? 8 then [8; 13] else [p].
 Definition monitor (p : N) (c : case) : bool :=
-  negb (existsb (fun f => mem_n f (concerns p)) (flags_of c)).
+  negb (existsb (fun f => mem_n f (concerns p) && negb (mem_n f (ignore c))) (flags_of c)).
 
 Definition judge_for (p : N) (c : case) : N := verdict (agree c) (monitor p c).
 
-Definition diag (c : case) : N * list N := (replay_diag (cfg c) init None (events c) 0, flags_of c).
+Definition diag (c : case) : N * list N := (replay_diag_h (hidden c) (cfg c) init None (events c) 0, flags_of c).
 Definition mon_where (c : case) : list (N * N) :=
-  g_where (mon_final (mon_run (mkL [] [] [] None false [] None [] 0 []) None false (events c))).
+  g_where (mon_final (mon_run (mkL [] [] [] None false [] (hidden c) None [] 0 []) None false (events c))).
